@@ -500,12 +500,96 @@ def fresh_search_stub(ft, ads, counter=[0]):
     return "\n".join(stubs)
 
 
+def desugar_enumerate_loops(ft, ads):
+    """D14: `for (I, X) in EXPR.enumerate() { BODY }` (Enumerate is not specified in vstd and cannot be specified
+    from outside it) becomes
+        { let mut d14_kN: usize = 0; for X in EXPR { let I = d14_kN; d14_kN = d14_kN + 1; BODY } }
+    — the counter is bound and advanced first thing in the body, so `continue` cannot skip it; the addition
+    carries Verus' overflow obligation."""
+    n = 0
+    while True:
+        sig = ft.sig
+        hit = None
+        for k, t in enumerate(sig):
+            if t.kind == "ident" and t.text == "for" and k + 1 < len(sig) and sig[k + 1].text == "(":
+                pc = match_close(sig, k + 1)
+                if not (sig[pc + 1].kind == "ident" and sig[pc + 1].text == "in"):
+                    continue
+                # pattern (I, X): split at the top-level comma
+                inner = sig[k + 2:pc]
+                depth = 0
+                comma = None
+                for x, u in enumerate(inner):
+                    if u.text in OPEN:
+                        depth += 1
+                    elif u.text in CLOSE:
+                        depth -= 1
+                    elif u.text == "," and depth == 0:
+                        comma = x
+                        break
+                if comma is None:
+                    continue
+                # find loop body brace
+                m = pc + 2
+                while sig[m].text != "{":
+                    if sig[m].text in "([":
+                        m = match_close(sig, m)
+                    m += 1
+                # does the iterated expression end with `.enumerate()`?
+                if [u.text for u in sig[m - 4:m]] != [".", "enumerate", "(", ")"]:
+                    continue
+                hit = (k, pc, comma, m)
+                break
+        if hit is None:
+            break
+        k, pc, comma, m = hit
+        inner = sig[k + 2:pc]
+        ipat = ft.text[inner[0].s:inner[comma - 1].e]
+        xpat = ft.text[inner[comma + 1].s:inner[-1].e]
+        expr = ft.text[sig[pc + 2].s:sig[m - 5].e]
+        bclose = match_close(sig, m)
+        cnt = f"d14_k{n}"
+        # close the wrapping block after the loop body
+        ft.edits.append((sig[bclose].e, 0, " }"))
+        ft.edits.append((sig[m].e, 0, f" let {ipat} = {cnt}; {cnt} = {cnt} + 1;"))
+        ft.edits.append((sig[k].s, sig[m - 1].e - sig[k].s, f"{{ let mut {cnt}: usize = 0; for {xpat} in {expr}"))
+        ft.apply_edits()
+        ft.relex()
+        n += 1
+    if n:
+        ads.append({"rule": "D14", "what": f"{n} `for (i, x) in e.enumerate()` loop(s) desugared to an explicit usize counter"})
+
+
 def adapt_function(text, where, subs, report):
     ft = FnText(text, where)
     ft.relex()
     ads = report["adaptations"]
     normalise_bool_assign(ft, ads)
     split_or_guard_arms(ft, ads)
+    desugar_enumerate_loops(ft, ads)
+    # nested fn items with their own contracts (D3 applied recursively)
+    for sd in subs:
+        if sd["kw"] != "nested":
+            continue
+        nm = sd["args"].strip()
+        sig = ft.sig
+        # skip the outer fn's own `fn` keyword (first one)
+        outer = next(k for k, t in enumerate(sig) if t.kind == "ident" and t.text == "fn")
+        hits = [k for k, t in enumerate(sig) if k > outer and t.kind == "ident" and t.text == "fn" and sig[k + 1].text == nm]
+        if len(hits) != 1:
+            raise ExtractError("lost-anchor", f"{where}: nested fn `{nm}` found {len(hits)} times")
+        k = hits[0]
+        j = k + 2
+        while sig[j].text != "{":
+            if sig[j].text in "([":
+                j = match_close(sig, j)
+            j += 1
+        e = match_close(sig, j)
+        inner_text = ft.text[sig[k].s:sig[e].e]
+        inner_new = adapt_function(inner_text, where + " :: fn " + nm, sd.get("subs", []), report)
+        ft.edits.append((sig[k].s, sig[e].e - sig[k].s, inner_new))
+        ft.apply_edits()
+        ft.relex()
     extra_items = ""
     if any(sd["kw"] == "fresh_search" for sd in subs):
         extra_items = fresh_search_stub(ft, ads)
@@ -606,9 +690,9 @@ def adapt_function(text, where, subs, report):
                 parts = []
                 for kind, v in pieces:
                     if kind == "lit":
-                        parts.append(f'FmtArg::lit("{v}")')
+                        parts.append(f'"{v}".to_string()')
                     else:
-                        parts.append(f"FmtArg::of(&{v})")
+                        parts.append(f"({v}).to_string()")
                 rep = "fmt_concat(vec![" + ", ".join(parts) + "])"
                 ft.edits.append((t.s, sig[close].e - t.s, rep))
                 n += 1
@@ -907,6 +991,20 @@ def adapt_type(src, found, kind, name, report):
     txt = raw
     for pos, dl in sorted(edits, key=lambda e: -e[0]):
         txt = txt[:pos] + txt[pos + dl:]
+    # generics: `struct Name<D, W> {`
+    gen = ""
+    hk = [t.text for t in sig[kw:found[2] if found[2] is not None else end]]
+    if len(hk) > 2 and hk[2] == "<":
+        depth = 0
+        for idx in range(2, len(hk)):
+            if hk[idx] == "<":
+                depth += 1
+            elif hk[idx] == ">":
+                depth -= 1
+                if depth == 0:
+                    gen = "".join(hk[2:idx + 1]).replace(",", ", ")
+                    break
+    tyname = name + gen
     fieldless = kind == "enum" and not any(t.text in "({" for t in s2[[i for i, t in enumerate(s2) if t.text == "{"][0] + 1:-1])
     out = []
     ads = report["adaptations"]
@@ -923,18 +1021,18 @@ def adapt_type(src, found, kind, name, report):
         ads.append({"rule": "D1", "what": f"derive({', '.join(derives)}) -> derive({', '.join(keep)})"})
     else:
         out.append(txt + "\n")
-        gen = []
+        gen_list = []
         if "Clone" in derives:
-            gen.append("Clone")
-            out.append(f"impl Clone for {name} {{\n    #[verifier::external_body]\n    fn clone(&self) -> (r: Self) ensures r == *self {{ unimplemented!() }}\n}}\n")
+            gen_list.append("Clone")
+            out.append(f"impl{gen} Clone for {tyname} {{\n    #[verifier::external_body]\n    fn clone(&self) -> (r: Self) ensures r == *self {{ unimplemented!() }}\n}}\n")
         if "PartialEq" in derives:
-            gen.append("PartialEq")
-            out.append(f"impl PartialEq for {name} {{\n    #[verifier::external_body]\n    fn eq(&self, other: &Self) -> (b: bool) ensures b == (*self == *other) {{ unimplemented!() }}\n}}\n")
+            gen_list.append("PartialEq")
+            out.append(f"impl{gen} PartialEq for {tyname} {{\n    #[verifier::external_body]\n    fn eq(&self, other: &Self) -> (b: bool) ensures b == (*self == *other) {{ unimplemented!() }}\n}}\n")
         if "Eq" in derives:
-            out.append(f"impl Eq for {name} {{}}\n")
+            out.append(f"impl{gen} Eq for {tyname} {{}}\n")
         if "IntoIterator" in derives:
             ads.append({"rule": "D7", "what": "derive_more::IntoIterator dropped; delegating impls come from the unit template"})
-        ads.append({"rule": "D1", "what": f"derive({', '.join(derives)}) dropped; external_body impls assumed structural: {gen}"})
+        ads.append({"rule": "D1", "what": f"derive({', '.join(derives)}) dropped; external_body impls assumed structural: {gen_list}"})
     report["sha256"] = sha(raw)
     report["lines"] = [src.line_of(start), src.line_of(sig[end].e)]
     return "".join(out)
@@ -974,7 +1072,14 @@ def parse_template(text):
                     raise ExtractError("template", f"line {i+1}: expected //@ line inside //@fn block")
                 body = lines[i].split("//@", 1)[1]
                 b = body.strip()
-                if b.startswith("."):
+                if b.startswith(".."):
+                    parts = b[2:].split(" ", 1)
+                    cur = {"kw": parts[0], "args": parts[1] if len(parts) > 1 else "", "text": ""}
+                    nested = [x for x in d["subs"] if x["kw"] == "nested"]
+                    if not nested:
+                        raise ExtractError("template", f"line {i+1}: `..` directive without a preceding .nested")
+                    nested[-1].setdefault("subs", []).append(cur)
+                elif b.startswith("."):
                     parts = b[1:].split(" ", 1)
                     cur = {"kw": parts[0], "args": parts[1] if len(parts) > 1 else "", "text": ""}
                     d["subs"].append(cur)
@@ -1030,7 +1135,7 @@ def build_unit(template_path, repo_root, verif_root):
             out.append(node)
             continue
         kw = node["kw"]
-        parts = [p.strip() for p in node["args"].split("::")]
+        parts = [p.strip() for p in re.split(r"\s+::\s+", node["args"])]
         # re-join `a :: b` paths inside headers is not needed: headers never contain `::` in this code base
         rel, path = parts[0], parts[1:]
         path = [p for p in path if p != "-"]
